@@ -97,6 +97,9 @@ def coq_case(c):
     if c.get("lmodel"):
         from harness.props import c01_full as F
         return f"(CL {F.coq_lexpr(c['e'])})"
+    if c.get("cmodel"):
+        from harness.props import c01_full as F
+        return f"(CC {F.coq_cexpr(c['e'])} {F.coq_expr(c['e'])})"
     if c.get("xmodel"):
         from harness.props import c01_full as F
         return f"(CX {F.coq_xexpr(c['e'])} {F.coq_expr(c['e'])})"
@@ -286,6 +289,16 @@ def _cases(tier, rng):
             continue
         seen.add(key)
         yield {"kind": "loopfrag:" + kind, "full": True, "lmodel": True, "e": e, "opts": list(rng.choice(OPTS)),
+               "lisp": F.to_lisp(e)}
+    # the closure fragment (simulation theorem of C01C): dedicated programs + every mechanism that fits
+    cps = [("clo", e) for e in F.closure_programs(rng, 60 if tier == "quick" else 1500)]
+    cps += [("mech:" + k, e) for k, e in F.hazard_programs() if F.in_c_fragment(e) and F.has_fn(e)]
+    for kind, e in cps:
+        key = "C" + repr(e)
+        if key in seen:
+            continue
+        seen.add(key)
+        yield {"kind": "clofrag:" + kind, "full": True, "cmodel": True, "e": e, "opts": list(rng.choice(OPTS)),
                "lisp": F.to_lisp(e)}
     # the exception fragment (simulation theorem of C01X): dedicated programs + every mechanism that fits
     xps = [("exc", e) for e in F.exc_programs(rng, 60 if tier == "quick" else 1500)]
